@@ -30,6 +30,8 @@ func c04World() *ref.World {
 	f.MS = map[string]string{"a": "ma"}
 	f.MP = map[string]*facts.Sub{"a": {V: 10}}
 	f.K, f.KS = 0, "a"
+	f.Grid = [][]int64{{10, 11, 12}, {20, 21, 22}}
+	f.Book = map[string]map[string]int64{"a": {"x": 10, "y": 11}, "b": {"x": 20}}
 	w.Objs["F"] = f
 	g := facts.New()
 	g.I, g.I8, g.I16, g.I32, g.In = 3, 4, 300, 70000, 6
@@ -55,7 +57,7 @@ func c04World() *ref.World {
 var c04Dests = []string{
 	"F.I", "F.I8", "F.I16", "F.I32", "F.In", "F.U", "F.U8", "F.U16", "F.U32", "F.Un", "F.F", "F.F32", "F.S", "F.B", "F.T", "F.PI",
 	"F.P.V", "F.P.S", "F.P.Q.V", "F.PArr[0].V", "F.Arr[1]", "F.Arr[F.K]", "F.SArr[0]", `F.M["a"]`, "F.M[F.KS]", `F.MS["a"]`, `F.MP["a"].V`,
-	"J.n", "J.o.n", "J.a[0]", "J.s", "N", "Name",
+	"J.n", "J.o.n", "J.a[0]", "J.s", "N", "Name", "F.Grid[0][1]", "F.Grid[F.K][2]", `F.Book["a"]["x"]`, `F.Book[F.KS]["y"]`,
 }
 
 var c04Sources = []string{
@@ -150,8 +152,54 @@ func C04(rep *ev.Reporter, tier string) {
 			}
 		}
 	}
+	// read - write - read inside one action list, for every location of the dependency matrix and every
+	// (aliased) reader/writer pair: the second read must see the write although the first read was remembered
+	var nRWR int64
+	genRWR := func(emit func(Case)) {
+		for li := range depLocs {
+			loc := &depLocs[li]
+			mkWorld := func() *ref.World {
+				w := depBaseWorld()
+				loc.init(w)
+				return w
+			}
+			for _, wp := range loc.writers {
+				for _, rp1 := range loc.readers {
+					for _, rp2 := range loc.readers {
+						acts := []string{"G.I2 = " + rp1 + " * 10", wp + " = 7", "G.In = " + rp2 + " * 10"}
+						w := mkWorld()
+						evl := &ref.Evaluator{W: w}
+						var eff ref.Effect
+						ok := true
+						for _, a := range acts {
+							if err := evl.Apply(grl.A(a), &eff); err != nil {
+								ok = false
+							}
+						}
+						if !ok {
+							continue
+						}
+						r := &grl.Rule{Name: "r", When: grl.E("G.I == 0")}
+						for _, a := range acts {
+							r.Then = append(r.Then, grl.A(a))
+						}
+						r.Then = append(r.Then, grl.A("G.I = 1"))
+						nRWR++
+						sig := "rwr=" + loc.name + ":" + rp1 + ";" + wp + ";" + rp2
+						emit(Case{ID: "c04/rwr/" + loc.name + "/" + rp1 + ";" + wp + ";" + rp2, Rules: []*grl.Rule{r}, Worlds: []func() *ref.World{mkWorld}, WorldNames: []string{"w"}, Opts: hx.RunOpts{MaxCycle: 3}, Meta: map[string]string{"sig": sig}})
+					}
+				}
+			}
+		}
+	}
+	gen0 := gen
+	gen = func(emit func(Case)) { gen0(emit); genRWR(emit) }
 	RunFamily(rep, gen, 50, bud, judgeC04(&unjudged))
 	rep.Coverage["unjudged_model_undefined"] = unjudged
-	rep.Coverage["rule"] = fmt.Sprintf("single-assignment matrix: 5 operators x %d destinations (13 numeric struct-field kinds, string, bool, time, *int64, nested pointer fields, slice elements by constant and computed index, map entries by constant and computed key, JSON members/elements, top-level variables) x %d sources (literals of every kind, fields of every numeric kind, method results, selector reads, arithmetic) restricted by the reference model to well-typed in-range pairs; sequences: every ordered pair (thorough: triple) of %d assignments incl. same destination twice, reads of what the previous action wrote, swaps. Oracle: the caller's own Go objects / JSON fact / data-context entries after Execute equal the reference model's post-state computed with standard-library reflection on an independent deep copy (every other field compared too). Non-trivial: every judged case (a real write happened).", len(c04Dests), len(c04Sources), len(c04Seq))
+	rep.Coverage["read_write_read_cases"] = nRWR
+	if nRWR < 40 {
+		rep.Violation("C04:vacuous:read-write-read", fmt.Sprintf("only %d read-write-read cases were generated", nRWR), map[string]interface{}{"case": "c04/rwr"})
+	}
+	rep.Coverage["rule"] = fmt.Sprintf("single-assignment matrix: 5 operators x %d destinations (13 numeric struct-field kinds, string, bool, time, *int64, nested pointer fields, slice elements by constant and computed index, map entries by constant and computed key, JSON members/elements, top-level variables) x %d sources (literals of every kind, fields of every numeric kind, method results, selector reads, arithmetic) restricted by the reference model to well-typed in-range pairs; sequences: every ordered pair (thorough: triple) of %d assignments incl. same destination twice, reads of what the previous action wrote, swaps; read-write-read inside one action list for every dependency-matrix location (fields, pointer chains, slices, maps, two-level slices and maps, JSON, top-level) and every aliased reader/writer pair. Oracle: the caller's own Go objects / JSON fact / data-context entries after Execute equal the reference model's post-state computed with standard-library reflection on an independent deep copy (every other field compared too). Non-trivial: every judged case (a real write happened).", len(c04Dests), len(c04Sources), len(c04Seq))
 	rep.Assumptions = append(rep.Assumptions, "float->int conversions of non-integral values, float32 rounding, negative->unsigned and out-of-range values are outside the quantifier and skipped by the generator")
 }
